@@ -26,6 +26,16 @@ class Obj:
         return 'Obj(%s:%s%s)' % (self.ref, self.cls, '' if not self.kind else ' %s:%s:%d' % (self.kind, self.elem, self.ndim))
 
 
+class SymDict:
+    """Dict value with symbolic keys: an association list (used for small literals such as {species: {charge: rate}})."""
+    def __init__(self, items=None, auto=False):
+        self.items = list(items or [])       # [(key value, value)]
+        self.auto = auto                     # RecursiveDict semantics: missing keys create nested dicts
+
+    def __repr__(self):
+        return 'SymDict(%r)' % (self.items,)
+
+
 class FuncVal:
     def __init__(self, file, qualname, node, cls=None):
         self.file = file
